@@ -18,6 +18,7 @@ from typing import Any, Dict, List, Optional, Tuple
 from ..can import world as W
 from ..core import worker
 from ..core.budget import HangVerdict
+from ..core.envsim import environment
 from ..core.evlog import EventLog, canon, exc_sig, exc_site
 from ..core.seeds import Streams, h64, run_seed, weighted
 from ..core.shrink import ShrinkBudget, ddmin_list
@@ -29,7 +30,7 @@ META: Dict[str, Any] = {
     "pools": [{"backend": "c", "import_strict": True}, {"backend": "c", "import_strict": False},
               {"backend": "py", "import_strict": True}, {"backend": "py", "import_strict": False}],
     "tiers": {
-        "quick": {"runs": 3000, "chunk": 30, "wall": 75, "chunk_wall": 400},
+        "quick": {"runs": 3000, "chunk": 30, "wall": 240, "chunk_wall": 400},
         "thorough": {"runs": 120000, "chunk": 40, "wall": 1200, "chunk_wall": 900},
     },
     "selftest_runs": 4,
@@ -444,6 +445,17 @@ def gen(rs: int, index: int, tier: str) -> Dict[str, Any]:
             ["--no-strict", "compare", "PDX", "-v", "nonexistent_a", "nonexistent_b"],
         ])
         ops.insert(rc.randint(0, len(ops)), ["cli", argv])
+    # codec state objects prepared by the caller under one mode and used under another
+    rp = S.rng("prepared")
+    if rp.random() < 0.6:
+        cands = [o for o in ops if (o[0] == "dec" and o[2] == "C") or o[0] == "enc"]
+        rp.shuffle(cands)
+        for o in cands[:rp.randint(1, 5)]:
+            if o[0] == "dec":
+                pop = ["decp", o[1], o[5][0], o[5][1], o[3], rp.random() < 0.5]
+            else:
+                pop = ["encp", o[1], o[2], o[3], o[4], o[5], rp.random() < 0.5]
+            ops.insert(rp.randint(0, len(ops)), pop)
     rf = S.rng("flips")
     flips: List[List[Any]] = []
     n_flips = rf.choice([0, 2, 5, 10, 30])
@@ -454,7 +466,11 @@ def gen(rs: int, index: int, tier: str) -> Dict[str, Any]:
         else:
             flips.append([oi, rf.choice([0, 1, 2, 5, 10, 20, 50, 100, 200, rf.randint(0, 400)]), rf.random() < 0.5])
     flips.sort(key=lambda f: (f[0], f[1]))
-    return {"kind": "run", "ops": ops, "flips": flips, "initial": rf.random() < 0.5}
+    t = {"kind": "run", "ops": ops, "flips": flips, "initial": rf.random() < 0.5}
+    # environment variation: warnings escalated to exceptions (python -W error, pytest filterwarnings=error)
+    if S.rng("env").random() < 1 / 6:
+        t["env"] = {"warnings": "error"}
+    return t
 
 
 # ------------------------------------------------------------------ executing operations
@@ -547,6 +563,28 @@ def run_op(op: List[Any]) -> Tuple[str, Any]:
             else:
                 res = co.encode(**kwargs)
             return "ok", bytes(res).hex()
+        if kind in ("decp", "encp"):
+            # the caller prepares the codec state object while the flag has the value op[-1] and uses
+            # it under the current mode: only the mode at the time of USE may matter
+            from odxtools.decodestate import DecodeState
+            from odxtools.encodestate import EncodeState
+            exc_mod = STATE["exc_mod"]
+            layer = STATE["layers"][op[1]]
+            svc, co = c05.find_objects(layer, op[2], op[3])
+            cur = exc_mod.strict_mode
+            exc_mod.strict_mode = bool(op[-1])
+            try:
+                if kind == "decp":
+                    state: Any = DecodeState(coded_message=bytes.fromhex(op[4]))
+                else:
+                    state = EncodeState(triggering_request=bytes.fromhex(op[5]) if op[5] is not None else None,
+                                        is_end_of_pdu=True)
+            finally:
+                exc_mod.strict_mode = cur
+            if kind == "decp":
+                return "ok", v2j(co.decode_from_pdu(state))
+            co.encode_into_pdu(physical_value=j2v(op[4]), encode_state=state)
+            return "ok", bytes(state.coded_message).hex()
         if kind == "load":
             import odxtools
             from odxtools.database import Database
@@ -682,8 +720,13 @@ def execute(trace: Dict[str, Any]) -> Dict[str, Any]:
     ops = trace["ops"]
     log.ev("sim", "config", {"kind": trace["kind"], "n_ops": len(ops), "n_flips": len(trace.get("flips", []))})
     differs = False
+    env = trace.get("env")
+    envtag = json.dumps(env, sort_keys=True) if env else ""
+    if env:
+        log.ev("sim", "env", env)
+        faults["env_warnings_" + str(env.get("warnings"))] = 1
     try:
-        with W.quiet():
+        with W.quiet(), environment(env):
             if trace["kind"] == "cross":
                 # an outcome observed in the sibling interpreter (opposite import-time flag)
                 op, v = trace["ops"][0], trace["v"]
@@ -722,9 +765,26 @@ def execute(trace: Dict[str, Any]) -> Dict[str, Any]:
                                 "oracle": "C17.O5-operations-leave-the-switch-alone", "sig": {"kind": op[0]},
                                 "detail": {"op": op[:3], "flag_before": v, "flag_after": bool(exc_mod.strict_mode)}})
                         ref[k][v] = outcome_str(o)
-                        cross[h64(k, v)] = h64(ref[k][v])
+                        cross[h64(k, v, envtag)] = h64(ref[k][v])
                         log.ev("app", "ref", {"op": op[:3], "v": v, "outcome": h64(ref[k][v])})
                         counters["preemption_points"] = counters.get("preemption_points", 0) + n_points
+                    if op[0] in ("decp", "encp"):
+                        twin = op[:-1] + [not op[-1]]
+                        for v in (True, False):
+                            exc_mod.strict_mode = v
+                            mon.arm({})
+                            o2 = outcome_str(run_op(twin))
+                            mon.disarm()
+                            probes["prepared_state_twin_compared"] = probes.get("prepared_state_twin_compared", 0) + 1
+                            if o2 != ref[k][v]:
+                                violations.append({
+                                    "oracle": "C17.O2-history-independence",
+                                    "sig": {"kind": op[0], "v": v, "ref": outcome_class(ref[k][v]),
+                                            "now": outcome_class(o2)},
+                                    "detail": {"op": op, "flag_at_use": v, "what": "a codec state object prepared under "
+                                               "the other mode gives a different outcome",
+                                               "prepared_under_%s" % bool(op[-1]): ref[k][v][:300],
+                                               "prepared_under_%s" % (not op[-1]): o2[:300]}})
                     st, sl = json.loads(ref[k][True]), json.loads(ref[k][False])
                     states.add(h64(op[0], st[0], sl[0], st[1].get("site") if st[0] == "exc" else None,
                                    sl[1].get("site") if sl[0] == "exc" else None))
@@ -913,11 +973,16 @@ def resolve_cross(trace: Dict[str, Any], tier: str) -> Optional[Dict[str, Any]]:
     batch_seed = worker._STATE.get("batch_seed", 0)
     idx = trace["index"]
     t = gen(run_seed("C17", batch_seed, idx), idx, tier)
+    env = t.get("env")
+    envtag = json.dumps(env, sort_keys=True) if env else ""
     for op in t["ops"]:
         for v in (True, False):
-            if h64(op_key(op), v) == trace["key"]:
-                return {"kind": "cross", "ops": [op], "v": v, "sibling_outcome": trace["sibling_outcome"],
-                        "flips": []}
+            if h64(op_key(op), v, envtag) == trace["key"]:
+                out = {"kind": "cross", "ops": [op], "v": v, "sibling_outcome": trace["sibling_outcome"],
+                       "flips": []}
+                if env:
+                    out["env"] = env
+                return out
     return None
 
 
@@ -931,6 +996,11 @@ def shrink(trace: Dict[str, Any], still_fails) -> Dict[str, Any]:
         return trace
     budget = ShrinkBudget(300)
     cur = trace
+    if cur.get("env"):
+        plain = {k: v for k, v in cur.items() if k != "env"}
+        budget.tests += 1
+        if still_fails(plain):
+            cur = plain
     cand = {**cur, "flips": []}
     budget.tests += 1
     if still_fails(cand):
